@@ -1018,7 +1018,7 @@ fn random_scase(r: &mut Rng) -> SCase {
         let k = 2 + r.below(3) as usize;
         return SCase { family: "random_ksp_single_via".into(), w, q: q2, nested, cfg, query, cut, ksp: Some(k) };
     }
-    SCase { family: match fam { CostFamily::TieFree => "random_tie_free".into(), CostFamily::TieRich => "random_tie_rich".into() }, w, q, nested, cfg, query, cut, ksp: None }
+    SCase { family: match fam { CostFamily::TieFree => "random_tie_free".into(), CostFamily::TieRich => "random_tie_rich".into(), _ => "random_long_haul".into() }, w, q, nested, cfg, query, cut, ksp: None }
 }
 
 const SHEADER: &str = "From Coq Require Import ZArith QArith List String Floats.\nFrom RC Require Import Base.Show Base.Num Base.Json Model.Units Model.Frontier Model.Search Model.SearchRun Model.FrontierRun.\nImport ListNotations Frontier FrontierRun.\nOpen Scope nat_scope.";
